@@ -29,7 +29,7 @@ import (
 func init() {
 	Register(&Scenario{
 		Prop: "C15", Run: scenarioC15, QuickRuns: 9000, ThoroughRuns: 1500000, Level: "fault_enumeration",
-		Rule:       "one run = one simulated world evolved for 0..N epochs (activation swarm, disabled / recurrent genes, nil traits, float64 weights produced by mutation plus tape-chosen extreme but finite weights) or one simulated experiment; its objects are written to and read back from the simulated disk: plain genome, YAML genome (also modular), Organism.MarshalBinary/UnmarshalBinary, Population.Write/ReadPopulation, fast-solver WriteModel/ReadFMNSModel (outputs over an activation history compared bit for bit), Experiment.Write/Read (records and derived statistics). Clean configuration: reads are fragmented (whole / 1 byte / random short reads / last chunk together with EOF). Fault configurations: the writer fails at byte k, or the reader fails after k bytes; the call must return an error, a nil error is an acknowledgement and then the result must be equal. Some runs sweep k over every byte (small objects) or around every 4096-byte buffer boundary. A case is one round trip; non-trivial when the object has a disabled or recurrent gene, a nil trait, a non-default activation, a module, or a fault fired inside the call; distinct by (kind, object hash, read mode, fault offset)",
+		Rule:       "one run = one simulated world evolved for 0..N epochs (activation swarm, disabled / recurrent genes, nil traits, float64 weights produced by mutation plus tape-chosen extreme but finite weights) or one simulated experiment; its objects are written to and read back from the simulated disk: plain genome, YAML genome (also modular), Organism.MarshalBinary/UnmarshalBinary (also with the binary form held by the caller while other organisms are marshalled), Population.Write and WriteBySpecies/ReadPopulation, fast-solver WriteModel/ReadFMNSModel (outputs over an activation history compared bit for bit), Experiment.Write/Read (records and derived statistics). Clean configuration: reads are fragmented (whole / 1 byte / random short reads / last chunk together with EOF). Fault configurations: the writer fails at byte k, or the reader fails after k bytes; the call must return an error, a nil error is an acknowledgement and then the result must be equal. Some runs sweep k over every byte (small objects) or around every 4096-byte buffer boundary. A case is one round trip; non-trivial when the object has a disabled or recurrent gene, a nil trait, a non-default activation, a module, or a fault fired inside the call; distinct by (kind, object hash, read mode, fault offset)",
 		RealParts:  []string{"genetics.NewGenomeWriter / NewGenomeReader (plain, YAML), Genome.Write / ReadGenome, Organism.MarshalBinary / UnmarshalBinary, Population.Write / ReadPopulation", "network.FastModularNetworkSolver.WriteModel / ReadFMNSModel", "experiment.Experiment.Write / Read with Trial / Generation / champion gob encoding", "bufio, encoding/json, encoding/gob, yaml.v3"},
 		StubParts:  []string{"disk: in-memory io.Reader / io.Writer with tape-chosen fragmentation and failure byte", "GenerationEvaluator of the simulated experiment (scripted)", "wall clock of the simulated experiment (fake clock)"},
 		FaultKinds: []string{"fault.write_error", "fault.write_error_transient", "fault.read_error", "fault.short_reads", "fault.one_byte_reads", "fault.eof_with_data"},
